@@ -36,6 +36,15 @@ let parse_tree (toks : string list) : Tree.nt * string list =
              List.map fst parsed, List.filter_map snd parsed) in
   let t = go () in (t, !toks)
 
+(* values longer than 16 bytes are carried as digest ++ zeros (same length); a tree printed with full values is brought to that form *)
+let norm_val (v : BinNums.coq_N list) : BinNums.coq_N list =
+  let n = List.length v in
+  if n <= 16 then v else
+    let d = bytes_of_string (Digest.string (string_of_bytes v)) in
+    d @ List.init (n - 16) (fun _ -> BinNums.N0)
+let rec norm_tree (t : Tree.nt) : Tree.nt = match t with
+  | Tree.NT (h, i, k) -> Tree.NT (h, List.map (fun (x : Node.inode) -> { x with Node.i_val = norm_val x.Node.i_val }) i, List.map norm_tree k)
+
 let hd (t : Tree.nt) = match t with Tree.NT (h, _, _) -> h
 let ins (t : Tree.nt) = match t with Tree.NT (_, i, _) -> i
 let kids (t : Tree.nt) = match t with Tree.NT (_, _, k) -> k
@@ -70,7 +79,7 @@ let run mode file =
   let ic = open_in file in
   let cases = ref 0 and ops = ref 0 in
   let case_id = ref "" and ps = ref BinNums.N0 and fill = ref BinNums.N0 and inline = ref false in
-  let pre = ref None and order = ref [] and fl = ref [] and post = ref None in
+  let pre = ref None and order = ref [] and fl = ref [] and post = ref None and bval = ref "" and seq = ref BinNums.N0 in
   let flags = ref [] in
   let flag f = if not (List.mem f !flags) then flags := f :: !flags in
   let digest = ref "" in
@@ -79,8 +88,9 @@ let run mode file =
   let fuel = nat_of_int 24 in
   let judge () =
     match !pre, !post with
-    | Some t, Some p ->
+    | Some t, Some praw ->
       incr ops;
+      let p = if !inline then norm_tree praw else praw in
       (* (S) on the implementation's own observations *)
       let fpre = List.map (fun (x : Node.inode) -> (x.Node.i_key, x.Node.i_val)) (Tree.flatten fuel t)
       and fpost = List.map (fun (x : Node.inode) -> (x.Node.i_key, x.Node.i_val)) (Tree.flatten fuel p) in
@@ -103,6 +113,14 @@ let run mode file =
           if ie <> me then report want07 "MISMATCH" "freelist_events_of_commit" (String.concat " " ie) (String.concat " " me);
           List.iter (function Tree.EvFree _ -> flag "free" | Tree.EvAlloc n -> if int_of_n n > 1 then flag "multi-page-alloc") mevs;
           if List.length !order > 0 then flag "rebalance-visits";
+          (* Bucket.write / Bucket.spill: the value the parent stores for the bucket - the header, and for an inline bucket the root leaf written behind it *)
+          if d = "" && !bval <> "" && want04 then begin
+            let expect =
+              if minl then (match Node.bucket_write !seq { Node.n_leaf = true; n_unbal = false; n_inodes = ins praw } with Base.Ok b -> hex_of_bytes b | _ -> "panic")
+              else hex_of_bytes (Node.bucket_header_value (hd p).Tree.h_pgid !seq) in
+            if expect <> !bval then report want04 "PROPFAIL" "bucket_value_in_parent" (if String.length !bval > 120 then String.sub !bval 0 120 ^ ".." else !bval) (if String.length expect > 120 then String.sub expect 0 120 ^ ".." else expect)
+            else flag (if minl then "inline-value-checked" else "header-value-checked")
+          end;
           if List.length (Tree.flatten fuel t) = 0 then flag "emptied-bucket";
           if int_of_nat (Tree.depth fuel mt) < int_of_nat (Tree.depth fuel t) then flag "depth-shrinks"
           else if int_of_nat (Tree.depth fuel mt) > int_of_nat (Tree.depth fuel t) then flag "depth-grows";
@@ -130,10 +148,12 @@ let run mode file =
     | "case" :: id :: rest ->
       incr cases; case_id := id; flags := []; pre := None; post := None; order := []; fl := [];
       let kv = kv_of rest in
-      ps := n_of_string (get kv "ps"); fill := n_of_string (get kv "fill"); inline := (get kv "inline" = "1"); digest := ""
+      ps := n_of_string (get kv "ps"); fill := n_of_string (get kv "fill"); inline := (get kv "inline" = "1"); digest := "";
+      bval := ""; seq := (let q = get kv "seq" in if q = "" then BinNums.N0 else n_of_string q)
     | "pre" :: toks -> digest := Digest.to_hex (Digest.string line); pre := Some (fst (parse_tree toks))
     | "post" :: toks -> post := Some (fst (parse_tree toks))
     | ["order"; o] -> order := ns_of_csv o
+    | ["bval"; v] -> bval := v
     | "fl" :: evs -> fl := evs
     | ["end"] ->
       judge ();
